@@ -7,7 +7,7 @@
 From Coq Require Import ZArith QArith List Reals Bool.
 From DV Require Import Base.Field Base.LinAlg Base.RInst Base.QcInst Model.Losses Model.LossesR Gen.Losses
   Proofs.C16Lists Proofs.C16Pointwise Proofs.C16Corr Proofs.C16Overlap Proofs.C16MI Proofs.C16Real
-  Proofs.C16Gen Proofs.C16GenWin Proofs.C16GenWin2.
+  Proofs.C16Gen Proofs.C16GenWin Proofs.C16GenWin2 Proofs.C16Box.
 Import ListNotations.
 Local Open Scope fld_scope.
 
@@ -182,6 +182,18 @@ Theorem C16_lcc_affine_invariant :
 Proof. exact lcc_affine. Qed.
 Print Assumptions C16_lcc_affine_invariant.
 
+(* the box windows of lcc_loss / wlcc_loss (kernel k >= 1 per axis, padding k/2, stride 1, row-major lattice of ANY
+   dimension and shape) are a valid window system: every window is non-empty and inside the image -- so the
+   hypothesis nb_ok of the invariance theorem above holds for the windows the code uses *)
+Theorem C16_box_windows_valid :
+  forall (sh ks : list nat), pos sh -> pos ks ->
+  (forall i, (i < prodn sh)%nat -> box_nb sh ks i <> [] /\ Forall (fun j => (j < prodn sh)%nat) (box_nb sh ks i)) /\
+  (forall (K : fld), is_field K -> char0 K -> nb_ok K (prodn sh) (box_nb sh ks)).
+Proof.
+  intros sh ks Hs Hk. split; [intros i Hi; exact (box_nb_valid sh ks i Hs Hk Hi) | intros K Kf Kc; exact (box_nb_ok K Kf Kc sh ks Hs Hk)].
+Qed.
+Print Assumptions C16_box_windows_valid.
+
 (* windowed losses weight their local scores by the mask *)
 Theorem C16_windowed_mask_weighting :
   forall (K : fld), is_field K -> forall nb (eps : K) (s t m : list K),
@@ -256,6 +268,17 @@ Proof.
     exact (fun Hp Ht He => dice_ge_0 eps p t w Hp Ht Hw He Hd)].
 Qed.
 Print Assumptions C16_dice_range.
+
+(* Tversky index in (0, 1] and tversky_loss in [0, 1] for probabilities in [0, 1], non-negative weights and multipliers *)
+Theorem C16_tversky_range :
+  forall gamma (alpha beta eps : RF) (p t : list RF) w,
+  unit01 p -> unit01 t -> wnonneg w -> (0 <= alpha)%R -> (0 <= beta)%R -> (0 < eps)%R ->
+  (0 < tversky_index alpha beta eps p t w <= 1)%R /\ (0 <= tversky_loss gamma alpha beta eps p t w <= 1)%R.
+Proof.
+  intros gamma alpha beta eps p t w Hp Ht Hw Ha Hb He.
+  exact (conj (tversky_range alpha beta eps p t w Hp Ht Hw Ha Hb He) (tversky_loss_range gamma alpha beta eps p t w Hp Ht Hw Ha Hb He)).
+Qed.
+Print Assumptions C16_tversky_range.
 
 (* ================= 5. mutual information: structural symmetry only ==================================== *)
 (* PARTIAL: the Parzen window pw and the logarithm lg are abstract; what is proved is that swapping
